@@ -310,7 +310,7 @@ func (c *keyCache) load(meta KeyMeta, loader func(KeyMeta) (*internal.CryptoKey,
 	e, ok := c.read(meta)
 
 	switch {
-	case ok:
+	case ok && e.key.Created() == k.Created():
 		// existing key in cache. update revoked status and last loaded time and close key
 		// we just loaded since we don't need it
 		e.key.SetRevoked(k.Revoked())
@@ -318,8 +318,8 @@ func (c *keyCache) load(meta KeyMeta, loader func(KeyMeta) (*internal.CryptoKey,
 
 		k.Close()
 	default:
-		// first time loading this key into cache or we have an ID-only key with mismatched
-		// create timestamps
+		// first time loading this key into cache, or an ID-only (latest) lookup returned a different
+		// key than the cached latest one: the loaded key gets its own entry (the old one stays addressable)
 		e = newCacheEntry(k)
 	}
 
